@@ -375,6 +375,7 @@ class Server:
                 if current_plugins_snapshot != start_plugins_snapshot:
                     return {"restart": "plugins changed"}
         except InvalidSourceList as err:
+            self.flush_caches()
             return {"out": "", "err": str(err), "status": 2}
         except SystemExit as e:
             return {"out": stdout.getvalue(), "err": stderr.getvalue(), "status": e.code}
@@ -387,6 +388,7 @@ class Server:
         try:
             sources = create_source_list(files, self.options, self.fscache)
         except InvalidSourceList as err:
+            self.flush_caches()
             return {"out": "", "err": str(err), "status": 2}
         return self.check(sources, export_types, is_tty, terminal_width)
 
@@ -419,6 +421,7 @@ class Server:
             try:
                 added_sources = create_source_list(added, self.options, self.fscache)
             except InvalidSourceList as err:
+                self.flush_caches()
                 return {"out": "", "err": str(err), "status": 2}
             sources = sources + added_sources  # Make a copy!
         t1 = time.time()
